@@ -5,6 +5,7 @@ from sx import spec as SP, obs as O, term as T, sstr as S
 from . import common as C
 
 ID = 'C11'
+CFG_TIMEOUT = {'quick': 600, 'thorough': 3600}
 AGEABLE = True        # a quarter of the configurations build their operands as objects with a past (props/common.py)
 ENCODED = ['Fxp.bin', 'Fxp.hex', 'Fxp.base_repr', 'Fxp.from_bin', 'utils.binary_repr', 'utils.hex_repr', 'utils.base_repr', 'utils.insert_frac_point',
            'utils.add_binary_prefix', 'utils.strbin2int', 'utils.strbin2float', 'utils.strhex2int', 'utils.strhex2float', 'utils.str2num',
@@ -12,7 +13,7 @@ ENCODED = ['Fxp.bin', 'Fxp.hex', 'Fxp.base_repr', 'Fxp.from_bin', 'utils.binary_
 ASSUMPTIONS = [
     'strings are modelled with a concrete length and per-position symbolic characters; value-dependent lengths fork on the length',
     'rendering is specified per character: character i of bin() is bit n_word-1-i of the code modulo 2^n_word, hex digit j is the corresponding nibble',
-    'value-mode round trip for n_word <= 53, raw-mode round trip for every n_word; complex strings are outside the model',
+    'value-mode round trip for n_word <= 53, raw-mode round trip up to 128 bits (64 in the quick tier; wider words: rendering is covered by C13/C18 stores, the string round trip is outside the bound); complex strings are outside the model',
 ]
 HEX = '0123456789ABCDEF'
 
@@ -34,7 +35,7 @@ def configs(tier, seed):
             out.append(dict(signed=s, n_word=n, n_frac=n // 2, shape=[2], mode='value'))
             if tier == 'thorough':
                 out.append(dict(signed=s, n_word=n, n_frac=0, shape=[2, 2], mode='value'))
-    for n in ((64,) if tier == 'quick' else (64, 65, 100, 128, 256)):
+    for n in ((64,) if tier == 'quick' else (64, 65, 100, 128)):
         for s in ((True, False) if tier == 'thorough' else (rng.choice((True, False)),)):
             out.append(dict(signed=s, n_word=n, n_frac=rng.choice((0, n // 2, n)), shape=[], mode='raw'))
     for n in (1,):
